@@ -46,6 +46,50 @@ pub fn is_palindrome(s: &[u8]) -> bool {
     s.len() % 2 == 0 && rc(s) == s
 }
 
+/// serde helpers: base vectors are written as ACGT text in cases and replay files
+pub mod serde_seq {
+    use serde::{Deserialize, Deserializer, Serializer};
+    pub fn serialize<S: Serializer>(v: &Vec<u8>, s: S) -> Result<S::Ok, S::Error> {
+        s.serialize_str(&super::to_ascii(v))
+    }
+    pub fn deserialize<'de, D: Deserializer<'de>>(d: D) -> Result<Vec<u8>, D::Error> {
+        let t = String::deserialize(d)?;
+        Ok(super::from_ascii(&t))
+    }
+}
+
+pub mod serde_seqs {
+    use serde::ser::SerializeSeq;
+    use serde::{Deserialize, Deserializer, Serializer};
+    pub fn serialize<S: Serializer>(v: &Vec<Vec<u8>>, s: S) -> Result<S::Ok, S::Error> {
+        let mut q = s.serialize_seq(Some(v.len()))?;
+        for x in v {
+            q.serialize_element(&super::to_ascii(x))?;
+        }
+        q.end()
+    }
+    pub fn deserialize<'de, D: Deserializer<'de>>(d: D) -> Result<Vec<Vec<u8>>, D::Error> {
+        let t = Vec::<String>::deserialize(d)?;
+        Ok(t.iter().map(|x| super::from_ascii(x)).collect())
+    }
+}
+
+pub mod serde_seq_exts {
+    use serde::ser::SerializeSeq;
+    use serde::{Deserialize, Deserializer, Serializer};
+    pub fn serialize<S: Serializer>(v: &Vec<(Vec<u8>, u8)>, s: S) -> Result<S::Ok, S::Error> {
+        let mut q = s.serialize_seq(Some(v.len()))?;
+        for (x, e) in v {
+            q.serialize_element(&(super::to_ascii(x), *e))?;
+        }
+        q.end()
+    }
+    pub fn deserialize<'de, D: Deserializer<'de>>(d: D) -> Result<Vec<(Vec<u8>, u8)>, D::Error> {
+        let t = Vec::<(String, u8)>::deserialize(d)?;
+        Ok(t.iter().map(|(x, e)| (super::from_ascii(x), *e)).collect())
+    }
+}
+
 pub fn random_seq(rng: &mut Rng, len: usize, alphabet: &[u8]) -> Vec<u8> {
     (0..len).map(|_| *rng.pick(alphabet)).collect()
 }
